@@ -385,7 +385,7 @@ Lemma mstep_proj MI U ms o id s :
   nth_error ms id = Some s ->
   nth_error (fst (mstep MI U ms o)) id = Some (fst (arun MI U s (proj id o))).
 Proof.
-  intros Hs. destruct o as [id' d isNew t|]; cbn [mstep proj].
+  intros Hs. destruct o as [id' d isNew t| |]; cbn [mstep proj].
   - destruct (Nat.eqb id' id) eqn:E.
     + apply Nat.eqb_eq in E. subst id'. rewrite Hs.
       rewrite arun_cons. cbn [arun fst].
@@ -397,6 +397,7 @@ Proof.
       rewrite nth_error_set_nth_neq by exact E. exact Hs.
   - cbn [fst]. rewrite arun_cons. cbn [arun fst astep].
     apply map_nth_error. exact Hs.
+  - cbn [fst arun]. exact Hs.
 Qed.
 
 Lemma mrun_cons MI U ms o r :
